@@ -12,6 +12,7 @@
     renamed or extra locals, equivalent comparisons) still check; any
     behavioural change fails. *)
 From Coq Require Import ZArith List Bool Lia ZifyBool.
+From AV Require Import Tok.Model.
 Import ListNotations.
 Open Scope Z_scope.
 
@@ -45,9 +46,53 @@ Ltac split_rest :=
 
 Ltac split_all := split_cmp; unify_Z; split_rest.
 
+(* only the recorded integer comparisons matter to lia: drop the outcomes of opaque (float, list) tests first *)
+Ltac keep_Z_tests :=
+  repeat match goal with
+  | H : ?b = _ |- _ =>
+      lazymatch b with
+      | (_ <? _) => fail
+      | (_ <=? _) => fail
+      | (_ =? _) => fail
+      | (_ >? _) => fail
+      | (_ >=? _) => fail
+      | _ => clear H
+      end
+  end.
+
 Ltac deep_eq := first [ reflexivity | lia | congruence | (progress f_equal); deep_eq ].
 
 Ltac close_leaf :=
   try reflexivity;
-  try (exfalso; lia);
-  try deep_eq.
+  try congruence;
+  try (keep_Z_tests; first [ exfalso; lia | deep_eq ]).
+
+(** [walk]: follow the decision tree of the left-hand side, then of the right-hand side: at each
+    step case-split on the innermost scrutinee at the HEAD of the term (every syntactic occurrence
+    of it, on both sides, is decided at once), so the number of leaves is the number of paths, not
+    2^(number of tests). *)
+(* simplification after each case split; a tie file may extend the list of constants (record projections, setters) *)
+Ltac tie_simpl := cbv beta iota delta [negb andb orb].
+
+Ltac innermost t k :=
+  lazymatch t with
+  | (if ?c then _ else _) => innermost c k
+  | (match ?c with Some _ => _ | None => _ end) => innermost c k
+  | (match ?c with [] => _ | _ :: _ => _ end) => innermost c k
+  | (let '(_, _) := ?c in _) => innermost c k
+  | (match ?c with Ok _ => _ | Err _ => _ end) => innermost c k
+  | _ => k t
+  end.
+
+Ltac split_head t :=
+  lazymatch t with
+  | (if ?c then _ else _) => innermost c ltac:(fun x => let E := fresh "E" in destruct x eqn:E)
+  | (match ?c with Some _ => _ | None => _ end) => innermost c ltac:(fun x => let E := fresh "E" in destruct x eqn:E)
+  | (match ?c with [] => _ | _ :: _ => _ end) => innermost c ltac:(fun x => let E := fresh "E" in destruct x eqn:E)
+  | (let '(_, _) := ?c in _) => innermost c ltac:(fun x => let E := fresh "E" in destruct x eqn:E)
+  | (match ?c with Ok _ => _ | Err _ => _ end) => innermost c ltac:(fun x => let E := fresh "E" in destruct x eqn:E)
+  end; tie_simpl.
+
+Ltac step_lhs := lazymatch goal with |- ?l = _ => split_head l end.
+Ltac step_rhs := lazymatch goal with |- _ = ?r => split_head r end.
+Ltac walk := repeat step_lhs; repeat step_rhs; close_leaf.
